@@ -94,23 +94,43 @@ def activate_pair(kind, k, traffic=True):
     clf_i, clf_t = air.frontends()
     if x["disc"] == "F":
         air.devices["T"].listen_tech = ("212F", "424F")
-    llc_i = nfc.llcp.llc.LogicalLinkController(miu=x["miuI"], lto=x["ltoI"], lsc=x["lscI"], agf=x["agfI"])
-    llc_t = nfc.llcp.llc.LogicalLinkController(miu=x["miuT"], lto=x["ltoT"], lsc=x["lscT"], agf=x["agfT"])
-    for llc, snep in ((llc_i, x["snepI"]), (llc_t, x["snepT"])):
-        if snep:
-            s = nfc.llcp.Socket(llc, nfc.llcp.DATA_LINK_CONNECTION)
-            s.bind("urn:nfc:sn:snep")
-    ini, tgt = nfc.dep.Initiator(clf_i), nfc.dep.Target(clf_t)
-    # the option names and where they go: ContactlessFrontend._llcp_connect (clf/__init__.py:622-635)
-    opts_i = dict(brs=x["brs"], acm=x["acm"], rwt=x["xrwtI"], lrt=x["xlrtI"], lri=x["lri"])
-    opts_t = dict(brs=x["xbrsT"], acm=x["xacmT"], rwt=x["rwt"], lrt=x["lrt"], lri=x["xlriT"])
+    # the options exactly as an application gives them to ContactlessFrontend.connect(llcp={...}); connect()
+    # builds the LogicalLinkController from them and _llcp_connect (clf/__init__.py:622-635) passes
+    # brs/acm/rwt/lrt/lri on to nfc.dep.Initiator / nfc.dep.Target
+    box = {}
+
+    def startup(side, snep):
+        def f(llc):
+            if snep:
+                s = nfc.llcp.Socket(llc, nfc.llcp.DATA_LINK_CONNECTION)
+                s.bind("urn:nfc:sn:snep")
+            box[side] = llc
+            return llc
+        return f
+
+    def once():
+        st = dict(n=0)
+
+        def terminate():
+            st["n"] += 1
+            return st["n"] > 1
+        return terminate
+
+    opts_i = {"role": "initiator", "brs": x["brs"], "acm": x["acm"], "rwt": x["xrwtI"], "lrt": x["xlrtI"],
+              "lri": x["lri"], "miu": x["miuI"], "lto": x["ltoI"], "lsc": x["lscI"], "agf": x["agfI"],
+              "on-startup": startup("i", x["snepI"]), "on-connect": lambda llc: False}
+    opts_t = {"role": "target", "brs": x["xbrsT"], "acm": x["xacmT"], "rwt": x["rwt"], "lrt": x["lrt"],
+              "lri": x["xlriT"], "miu": x["miuT"], "lto": x["ltoT"], "lsc": x["lscT"], "agf": x["agfT"],
+              "on-startup": startup("t", x["snepT"]), "on-connect": lambda llc: False}
     ev, mark, xf = [], {}, []
 
     def fi():
-        ok = llc_i.activate(mac=ini, **opts_i)
+        llc_i = clf_i.connect(llcp=opts_i, terminate=once())
         mark["i"] = len(air.log)
+        ok = bool(llc_i)
         if not ok:
             return ok
+        llc_t = box["t"]
         # (the target's activation completes with the first DEP_REQ, so there is always one small exchange)
         for n in ((llc_i.cfg["send-miu"], 1) if traffic else (1,)):
             data = bytes((7 * j + n) & 0xFF for j in range(n))
@@ -123,9 +143,11 @@ def activate_pair(kind, k, traffic=True):
         return ok
 
     def ft():
-        ok = llc_t.activate(mac=tgt, **opts_t)
+        llc_t = clf_t.connect(llcp=opts_t, terminate=once())
+        ok = bool(llc_t)
         if not ok:
             return ok
+        llc_i = box["i"]
         rcvd = llc_t.exchange(None, 10.0)
         for n in ((llc_t.cfg["send-miu"], 1) if traffic else (1,)):
             if rcvd is None:
@@ -157,6 +179,8 @@ def activate_pair(kind, k, traffic=True):
         atr_res = [f for f in air.log if f.src == "T" and b"\xD5\x01" in f.data[:4]][-1]
         psl = [f for f in air.log if f.src == "I" and b"\xD4\x04" in f.data[:4]]
         a, b = atr_req.data, atr_res.data
+        llc_i, llc_t = box["i"], box["t"]
+        ini, tgt = llc_i.mac, llc_t.mac
         ci, ct = llc_i.cfg, llc_t.cfg
         rec["proj"] = dict(
             acm=bool(ini.acm), psl=bool(psl), brty0=atr_req.brty,
